@@ -4,6 +4,6 @@ From AIT Require Import Base.Vio Base.Qx Base.Mdp C05.Model C05.Spec.
 Extraction "model.ml" vio_kit tau_step rew_at
   unnormE updateE partialE punnormE pnormE sosaE rewE vecmat
   unnormQ updateQ partialQ punnormQ pnormQ sosaQ rewQ
-  queries_of table_model mk_pomdp
+  queries_of table_model mk_pomdp sparse_of
   tau_step_r obs_prob_r predict_r exp_reward3_r sosa_at vsum
   updateE_hist updateQ_hist tau_hist_r step run prob_tableb exact_tableb check_unnorm check_nonneg check_sum check_obs_total wf_pomdpb.
